@@ -6,13 +6,13 @@ From BB Require Import TranslatedCycle RecSound MonoMachine.
 Open Scope N_scope.
 
 (** For a normal-form program (first instruction 1RB) and EVERY cycle limit:
-    recurrence => the machine never halts; spin-out => it spins out;
+    recurrence => the machine never halts and never spins out; spin-out => it spins out;
     undefined slot => it halts exactly there. *)
 Theorem C07_rec_sound : forall comp lim,
   to_prog comp (0, 0) = Some (1, true, 1) ->
   match quick_term_or_rec comp lim with
   | RLimit => True
-  | RRecur => never_halts (to_prog comp) init_config
+  | RRecur => never_halts (to_prog comp) init_config /\ never_spins_out (to_prog comp) init_config
   | RSpinout => exists n, spins_out_at (to_prog comp) init_config n
   | RUndefined sl => exists n, halts_at (to_prog comp) init_config n sl
   end.
